@@ -250,3 +250,102 @@ Proof.
   - intros H. apply state_unchanged_iff. intros fill s d. apply abs_inj. exact (proj1 (H fill s d)).
   - intros (Ha & Hw & He). destruct cfg as [a b c]. cbn in Ha, Hw, He. subst. apply predict_pure_l.
 Qed.
+
+(* ---- the unstack / ffill / bfill / stack branch never invents a label either ---- *)
+
+Definition cells_in (S : list Z) (l : list label) : Prop := Forall (fun x => lab_in x S) l.
+Definition grid_in (S : list Z) (g : grid) : Prop := Forall (cells_in S) g.
+
+Lemma orelse_in : forall S x p, lab_in x S -> lab_in p S -> lab_in (orelse x p) S.
+Proof. intros S [v|] p Hx Hp; cbn; assumption. Qed.
+
+Lemma ffill_from_in : forall S l prev, lab_in prev S -> cells_in S l -> cells_in S (ffill_from prev l).
+Proof.
+  intros S. induction l as [|x r IH]; intros prev Hp Hl; cbn [ffill_from]; [constructor|].
+  inversion Hl; subst. constructor; [apply orelse_in; assumption|]. apply IH; [apply orelse_in; assumption | assumption].
+Qed.
+
+Lemma ffill_in : forall S l, cells_in S l -> cells_in S (ffill l).
+Proof. intros. apply ffill_from_in; [exact I | assumption]. Qed.
+
+Lemma bfill_in : forall S l, cells_in S l -> cells_in S (bfill l).
+Proof. intros S l H. unfold bfill. apply Forall_rev, ffill_in, Forall_rev, H. Qed.
+
+Lemma zip_orelse_in : forall S row prev, cells_in S row -> cells_in S prev -> cells_in S (zip_orelse row prev).
+Proof.
+  intros S. induction row as [|x r IH]; intros prev Hr Hp; cbn [zip_orelse]; [constructor|].
+  destruct prev as [|p q]; [assumption|]. inversion Hr; inversion Hp; subst.
+  constructor; [apply orelse_in; assumption | apply IH; assumption].
+Qed.
+
+Lemma ffill_rows_from_in : forall S g prev, cells_in S prev -> grid_in S g -> grid_in S (ffill_rows_from prev g).
+Proof.
+  intros S. induction g as [|row rest IH]; intros prev Hp Hg; cbn [ffill_rows_from]; [constructor|].
+  inversion Hg; subst. constructor; [apply zip_orelse_in; assumption|].
+  apply IH; [apply zip_orelse_in; assumption | assumption].
+Qed.
+
+Lemma ffill_rows_in : forall S g, grid_in S g -> grid_in S (ffill_rows g).
+Proof. intros. apply ffill_rows_from_in; [constructor | assumption]. Qed.
+
+Lemma bfill_rows_in : forall S g, grid_in S g -> grid_in S (bfill_rows g).
+Proof. intros S g H. unfold bfill_rows. apply Forall_rev, ffill_rows_in, Forall_rev, H. Qed.
+
+Lemma map_rows_in : forall S (f : list label -> list label) g,
+  (forall l, cells_in S l -> cells_in S (f l)) -> grid_in S g -> grid_in S (map f g).
+Proof.
+  intros S f g Hf Hg. unfold grid_in in *. rewrite Forall_forall in *. intros l Hl.
+  apply in_map_iff in Hl. destruct Hl as [l0 [<- H0]]. apply Hf, Hg, H0.
+Qed.
+
+Lemma fill_grid_in : forall S g, grid_in S g -> grid_in S (fill_grid g).
+Proof.
+  intros S g H. unfold fill_grid. apply bfill_rows_in, ffill_rows_in.
+  apply map_rows_in; [apply bfill_in|]. apply map_rows_in; [apply ffill_in | assumption].
+Qed.
+
+Lemma unstack_in : forall t, grid_in (labels_of t) (unstack t).
+Proof.
+  intros t. unfold grid_in, unstack. rewrite Forall_forall. intros row Hr.
+  apply in_map_iff in Hr. destruct Hr as [m [<- _]]. unfold cells_in. rewrite Forall_forall. intros x Hx.
+  apply in_map_iff in Hx. destruct Hx as [w [<- _]]. apply get_lab_in.
+Qed.
+
+Lemma stack_row_labels : forall S m ws row, cells_in S row -> incl (labels_of (stack_row m ws row)) S.
+Proof.
+  intros S m. induction ws as [|w ws IH]; intros row Hr v Hv; [contradiction|].
+  destruct row as [|x row]; [contradiction|]. inversion Hr; subst. cbn [stack_row] in Hv.
+  unfold labels_of in Hv. cbn [flat_map snd] in Hv. apply in_app_or in Hv. destruct Hv as [Hv|Hv].
+  - destruct x as [u|]; [|contradiction]. destruct Hv as [<-|[]]. assumption.
+  - apply (IH row); assumption.
+Qed.
+
+Lemma labels_of_app : forall a b, labels_of (a ++ b) = labels_of a ++ labels_of b.
+Proof. intros. unfold labels_of. apply flat_map_app. Qed.
+
+Lemma stack_labels : forall S ws ms g, grid_in S g -> incl (labels_of (stack ms ws g)) S.
+Proof.
+  intros S ws. induction ms as [|m ms IH]; intros g Hg v Hv; [contradiction|].
+  destruct g as [|row g]; [contradiction|]. inversion Hg; subst. cbn [stack] in Hv.
+  rewrite labels_of_app in Hv. apply in_app_or in Hv. destruct Hv as [Hv|Hv].
+  - eapply stack_row_labels; eassumption.
+  - eapply IH; eassumption.
+Qed.
+
+Lemma labels_fill_unstacked : forall t, incl (labels_of (fill_unstacked t)) (labels_of t).
+Proof. intros t. unfold fill_unstacked. apply stack_labels, fill_grid_in, unstack_in. Qed.
+
+(* every label of the table a call works with was learned by fit *)
+Lemma corrected_no_new_label : forall fill t d t',
+  (forall c, In (fill c) (labels_of (reindex t (ds_combos d)))) ->
+  corrected fill t d = Some t' -> incl (labels_of t') (labels_of t).
+Proof.
+  intros fill t d t' Hf H. unfold corrected in H.
+  pose proof (labels_reindex t (ds_combos d)) as R.
+  destruct (negb (has_missing (reindex t (ds_combos d)))).
+  - inversion H; subst. exact R.
+  - destruct (ds_observed d).
+    + destruct (has_known (reindex t (ds_combos d))); [|discriminate]. inversion H; subst.
+      eapply incl_tran; [apply labels_fill_nearest, Hf | exact R].
+    + inversion H; subst. eapply incl_tran; [apply labels_fill_unstacked | exact R].
+Qed.
